@@ -40,6 +40,7 @@ type Pointer struct {
 type symRef struct {
 	Arr []Value
 	Idx *Term // 64-bit
+	Cands []int // when non-nil: the only indices Idx can take; stores are allowed (weak update)
 }
 
 type SliceV struct {
